@@ -138,6 +138,7 @@ pub fn run(run: &Run) {
             }
         }
         vals.par_iter().for_each(|x| {
+            let _w = crate::watch::enter(&format!("{x:?}"));
             run.eval(1);
             if let Err(msg) = crate::watch::case("lexical value", || case(&f, x)) {
                 run.violation(&format!("[{}] {}", f.name, msg), case_json(&f, x), &features(x));
